@@ -528,7 +528,11 @@ def build_verus_file(unit, root=None):
             m = re.search(it["stmt"], body, re.S)
             if not m:
                 raise AnchorLost(f"slice statement /{it['stmt']}/ not found in {it['name']}")
-            stmt = verus_clean(m.group(0) + "\n")
+            if "expr" in m.groupdict():
+                # a guard expression (not a statement): wrapped verbatim as `let <result> = <expr>;`
+                stmt = verus_clean(f"let {it['result']} = {m.group('expr').strip()};\n")
+            else:
+                stmt = verus_clean(m.group(0) + "\n")
             c = it["contract"]
             fn = (f"fn {it['name']}{it.get('generics', '')}({it['params']}) -> (r: {it['ret']})\n"
                   + ("    requires " + ", ".join(c["requires"]) + ",\n" if c.get("requires") else "")
